@@ -209,6 +209,21 @@ func c17Door(r *core.Result, curve, doorName string, n int, seed int64) {
 			}
 			return p2.X(), p2.Y(), name(p2.Curve()), nil
 		}
+		// decoding into an object that already holds a validated point (an application that reloads its save data into the
+		// same structs; encoding/json re-uses a non-nil target): the new coordinates are validated all the same
+		doors["UnmarshalJSON(into a used object)"] = func(x, y *big.Int) (*big.Int, *big.Int, string, error) {
+			g := refGenuine(curve, big.NewInt(5))
+			p, err := crypto.NewECPoint(ec, g.X, g.Y)
+			if err != nil {
+				return nil, nil, "", fmt.Errorf("harness: %v", err)
+			}
+			_ = p.IsOnCurve()
+			payload, _ := json.Marshal(map[string]any{"Curve": curve, "Coords": []*big.Int{x, y}})
+			if err := json.Unmarshal(payload, p); err != nil {
+				return nil, nil, "", err
+			}
+			return p.X(), p.Y(), name(p.Curve()), nil
+		}
 		// the legacy form without a curve tag (old save files): decoded on the process-wide default curve, validated all the same
 		doors["UnmarshalJSON(no curve tag)"] = func(x, y *big.Int) (*big.Int, *big.Int, string, error) {
 			prev := tss.EC()
@@ -237,6 +252,23 @@ func c17Door(r *core.Result, curve, doorName string, n int, seed int64) {
 			}
 			var p crypto.ECPoint
 			if err := gob.NewDecoder(&buf).Decode(&p); err != nil {
+				return nil, nil, "", err
+			}
+			return p.X(), p.Y(), name(p.Curve()), nil
+		}
+		doors["GobDecode(into a used object)"] = func(x, y *big.Int) (*big.Int, *big.Int, string, error) {
+			src := crypto.NewECPointNoCurveCheck(ec, x, y)
+			var buf bytes.Buffer
+			if err := gob.NewEncoder(&buf).Encode(src); err != nil {
+				return nil, nil, "", fmt.Errorf("encode: %v", err)
+			}
+			g := refGenuine(curve, big.NewInt(5))
+			p, err := crypto.NewECPoint(ec, g.X, g.Y)
+			if err != nil {
+				return nil, nil, "", fmt.Errorf("harness: %v", err)
+			}
+			_ = p.IsOnCurve()
+			if err := gob.NewDecoder(&buf).Decode(p); err != nil {
 				return nil, nil, "", err
 			}
 			return p.X(), p.Y(), name(p.Curve()), nil
@@ -571,7 +603,38 @@ func c17Torsion(r *core.Result, n int, seed int64) {
 
 // c17JSONTag: the curve named in the JSON decides the curve; a point tagged with the other curve is refused;
 // an untagged payload falls back to the global curve (documented forward-compat behaviour).
+// c17Registry: a curve name registered a second time resolves to the newer curve only; the older curve is then unknown
+// again (no name, not the "same curve" as the newer one), and a point on it is not written out under that name.
+func c17Registry(r *core.Result) {
+	const nm = tss.CurveName("verif-reregistered")
+	a, b := elliptic.P224(), elliptic.P384()
+	tss.RegisterCurve(nm, a)
+	if got, ok := tss.GetCurveName(a); !ok || got != nm {
+		r.Fail("registry:first", "GetCurveName of a freshly registered curve = (%q, %v)", got, ok)
+	}
+	tss.RegisterCurve(nm, b)
+	if c, ok := tss.GetCurveByName(nm); !ok || c != b {
+		r.Fail("registry:latest", "the re-registered name does not resolve to the newer curve")
+	}
+	if got, ok := tss.GetCurveName(a); ok {
+		r.Fail("registry:stale-name", "the replaced curve still has the name %q, which resolves to another curve", got)
+	}
+	if tss.SameCurve(a, b) {
+		r.Fail("registry:same-curve", "SameCurve reports two different curves as the same after one replaced the other under a name")
+	}
+	ap := a.Params()
+	pt := crypto.NewECPointNoCurveCheck(a, ap.Gx, ap.Gy)
+	if bz, err := json.Marshal(pt); err == nil {
+		var back crypto.ECPoint
+		if err2 := json.Unmarshal(bz, &back); err2 == nil && back.Curve() != a {
+			r.Fail("registry:encoding", "a point on the replaced curve was written out under a name that reads back as another curve: %s", core.Clip(string(bz), 120))
+		}
+	}
+	r.Count("registry_checks", 5)
+}
+
 func c17JSONTag(r *core.Result) {
+	c17Registry(r)
 	sp := refGenuine("secp256k1", big.NewInt(9))
 	ep := refGenuine("ed25519", big.NewInt(9))
 	try := func(curve string, p ref.Pt) (*crypto.ECPoint, error) {
